@@ -14,9 +14,9 @@ k = load_known()
 if cmd == "fixed":
     k["fixed"].append("fixed: property=%s %s %s" % (prop, sys.argv[3], sys.argv[4]))
 else:
-    mod = importlib.import_module("sa.rules." + prop.lower())
+    from sa.related import run_rules
     ctx = Ctx(prop, Project("/repo"), quiet=True)
-    mod.run(ctx)
+    run_rules(prop, ctx)
     listed = {x["key"] for x in k["open"] if x["property"] == prop}
     new = []
     for f in ctx.findings:
